@@ -39,7 +39,18 @@ class Ctx:
     def explore(s, runner, contracts=None, pre=(), **kw):
         ps = explore(s.src, runner, contracts, pre, **kw)
         s.paths += len(ps)
+        for p in ps:
+            for w in getattr(p.ex, 'ext_writes', []):
+                s.__dict__.setdefault('all_ext_writes', set()).add(w[1])
         return ps
+
+    def no_hidden_state(s, statement=None, function=None):
+        """frame lemma for properties that relate the results of SEVERAL calls (or quantify over call histories): none of the paths
+        explored by this check writes to an object that outlives the call (arguments, self and what they hold, per-instance caches
+        created by attr.ib(factory=...), module-level constants)"""
+        w = sorted(getattr(s, 'all_ext_writes', set()))
+        s.ob("frame.no-write-to-state-that-outlives-a-call", [], blit(not w), kind='frame', function=function, writes=str(w)[:400],
+             statement=statement or "no explored path writes to its arguments, to self or to module-level state: a call cannot influence a later one")
 
     def requires_obs(s, name, paths):
         """call-site precondition obligations recorded by the executor on the given paths"""
